@@ -30,6 +30,9 @@ C16_Captions(c, E, l) ==
           /\ Count(E, p, {"foot"}) = (IF c.foot /\ Show(c.pfoot, p, c.n) THEN 1 ELSE 0)
           /\ Count(E, p, {"src"}) = (IF c.src /\ Show(c.psrc, p, c.n) THEN 1 ELSE 0))
   /\ ((l <= Len(E) /\ l > 1 /\ E[l - 1].p = E[l].p) => (Rank(E[l - 1].k) <= Rank(E[l].k) /\ Rank(E[l].k) < 9))
+\* C06 for figure documents: the subline accompanies the pages page_title selects, like the title
+C06_FigSubline(c, E, l) ==
+  LastOfPage(E, l) => Count(E, E[l].p, {"subline"}) = (IF c.subline /\ Show(c.ptitle, E[l].p, c.n) THEN 1 ELSE 0)
 \* C06 for figure documents: every page after the first begins with a break restating the geometry
 C06_FigBreak(c, E, l) ==
   /\ ((l <= Len(E) /\ l > 1 /\ E[l].p # E[l - 1].p) => (E[l].k = "break" /\ E[l].geom = c.geom))
